@@ -587,12 +587,12 @@ fn main() {
                     let evals_before = rep.evaluations;
                     let r = if pair {
                         let mut sub = Report::new("C05", &args);
-                        let r = catch(|| pairwise(&cfg, &pool, &mut calls, &mut sub));
+                        let r = watchdog::case(|| format!("pairwise {:?}", cfg), || catch(|| pairwise(&cfg, &pool, &mut calls, &mut sub)));
                         rep.evaluations += sub.evaluations;
                         r
                     } else {
                         rep.evaluations += pool.len().pow(arity as u32) as u64;
-                        catch(|| all_in_one(&cfg, &pool, &mut calls))
+                        watchdog::case(|| format!("all-in-one {:?}", cfg), || catch(|| all_in_one(&cfg, &pool, &mut calls)))
                     };
                     rep.transitions += calls;
                     let scenario = if pair { "pairwise" } else { "all-in-one" };
